@@ -113,17 +113,17 @@ func init() {
 		Cases: cases, Run: run,
 		RaceFrac: map[string]float64{"quick": 0.34, "thorough": 0.1},
 		MinObserved: map[string]int{
-			"dyn_oracle_checks":              1000,
-			"dyn_claims_launched":            100,
-			"dyn_limit_reached":              10,
-			"dyn_passes_gated_unsynced":      3,
-			"static_create_checks":           50,
-			"static_settle_checks":           20,
-			"static_drift_replacements":      3,
-			"static_interleaved_actions":     20,
-			"static_concurrent_rounds":       5,
-			"micro_reserve_grants_checked":   200,
-			"micro_histories":                50,
+			"dyn_oracle_checks":            1000,
+			"dyn_claims_launched":          100,
+			"dyn_limit_reached":            10,
+			"dyn_passes_gated_unsynced":    3,
+			"static_create_checks":         50,
+			"static_settle_checks":         20,
+			"static_drift_replacements":    3,
+			"static_interleaved_actions":   20,
+			"static_concurrent_rounds":     5,
+			"micro_reserve_grants_checked": 200,
+			"micro_histories":              50,
 		},
 	})
 }
